@@ -49,7 +49,7 @@ class MuxWorld(World):
     )
 
     def runs(self, prop, tier):
-        return 1600 if tier == "quick" else 40000
+        return 6000 if tier == "quick" else 80000
 
     # ------------------------------------------------------------------------------------------
     def gen_config(self, rng, prop):
